@@ -114,7 +114,10 @@ class Unit:
                 ftext, fs, fe = X.cut_member(src, m['class'], m['signature'], occurrence=occ)
             else:
                 ftext, fs, fe = X.cut_function(src, m['signature'], occurrence=occ)
-            text, s, e = X.cut_region(src, ftext, fs, m['begin'], m['end'])
+            if 'begin_after' in m:
+                text, s, e = X.cut_between(src, ftext, fs, m['begin_after'], m['end_before'])
+            else:
+                text, s, e = X.cut_region(src, ftext, fs, m['begin'], m['end'])
         else:
             raise X.ExtractError('unknown cut kind ' + kind)
         return src, text, s, e, kind
